@@ -344,7 +344,7 @@ func backupOpFor(chain *backupChain) func(in *Interp, op Op) error {
 	}
 }
 
-var wBackup = map[string]int{"txn": 10, "fill": 4, "deepen": 2, "flush": 4, "compact": 5, "backup": 8, "l0shape": 1, "reopen": 1, "clock": 2, "discardts": 1}
+var wBackup = map[string]int{"txn": 10, "fill": 4, "deepen": 2, "flush": 4, "compact": 5, "backup": 8, "l0shape": 1, "reopen": 1, "clock": 2, "discardts": 1, "delsweep": 3}
 
 // TestKF_C24Strict replays a saved program with the known-finding excuse off.
 func TestKF_C24Strict(t *testing.T) {
@@ -436,11 +436,24 @@ func runC24Conc(c c25Conc, rec *evid.Rec) (core.Result, error) {
 	}
 	chain.db = dst
 	during := 0
-	for run := 0; run <= c.Streams; run++ {
+	// schedule: per stream run an optional quiescent backup first (then the racing backup finds
+	// nothing new in its snapshot: an EMPTY incremental backup with a commit landing during it), then
+	// the backup that races with generation commits; a final quiescent backup ends the chain
+	type step struct{ racing bool }
+	var steps []step
+	for run := 0; run < c.Streams; run++ {
+		if c.Mask&(1<<uint(16+run)) != 0 {
+			steps = append(steps, step{false})
+		}
+		steps = append(steps, step{true})
+	}
+	steps = append(steps, step{false})
+	emptyRacing := 0
+	for run, stp := range steps {
 		if err := dbx.RelieveL0(db, 6); err != nil {
 			return res, err
 		}
-		last := run == c.Streams // the last backup of the chain is taken on the quiescent source
+		last := !stp.racing
 		var hits atomic.Int32
 		var hookErr atomic.Value
 		before := seq
@@ -479,6 +492,9 @@ func runC24Conc(c c25Conc, rec *evid.Rec) (core.Result, error) {
 		}
 		if seq > before {
 			during++
+			if buf.Len() == 0 {
+				emptyRacing++
+			}
 		}
 		if err := chain.db.Load(bytes.NewReader(buf.Bytes()), 4); err != nil {
 			return res, fmt.Errorf("load of backup %d: %v", run, err)
@@ -501,10 +517,14 @@ func runC24Conc(c c25Conc, rec *evid.Rec) (core.Result, error) {
 			if len(v) >= 8 {
 				g = uint64(v[7]) | uint64(v[6])<<8 | uint64(v[5])<<16
 			}
-			return res, fmt.Errorf("after a chain of %d incremental backups (NumGo %d; generations were committed while %d of them ran; the last one ran on the quiescent source): key %x in the loaded database holds generation %d (version %d), the source holds generation %d for every key", c.Streams+1, c.NumGo, during, k, g, item.Version(), seq)
+			return res, fmt.Errorf("after a chain of %d incremental backups (NumGo %d; generations were committed while %d of them ran; the last one ran on the quiescent source): key %x in the loaded database holds generation %d (version %d), the source holds generation %d for every key", len(steps), c.NumGo, during, k, g, item.Version(), seq)
 		}
 	}
-	rec.Add("backups", c.Streams+1)
+	rec.Add("backups", len(steps))
+	rec.Add("empty_backups_with_a_commit_during_them", emptyRacing)
+	if emptyRacing > 0 {
+		res.Classes = append(res.Classes, "empty_backup_raced_by_commit")
+	}
 	rec.Add("backups_with_concurrent_commits", during)
 	res.Classes = classesOf(in.St, c.Prog)
 	if during > 0 {
@@ -516,7 +536,7 @@ func runC24Conc(c c25Conc, rec *evid.Rec) (core.Result, error) {
 
 func TestC24_BackupConcurrent(t *testing.T) {
 	core.Run(t, "C24", "concurrent",
-		"a generated multi-table layout whose tracked keys (<= 8, spread over the key space) are rewritten by generation transactions (generation n = value n on ALL tracked keys in one transaction); a chain of 1-3 incremental backups (NumGo 2..16, since = version returned by the previous backup) runs while generations are committed from the stream.producer.start hook of selected producers, each backup is loaded into the chain's database; a last backup is taken on the quiescent source and loaded. Oracle: the loaded database shows the last generation for every tracked key. Non-trivial = generations were committed during a backup of a source with >=2 tables.",
+		"a generated multi-table layout whose tracked keys (<= 8, spread over the key space) are rewritten by generation transactions (generation n = value n on ALL tracked keys in one transaction); a chain of 1-3 incremental backups (NumGo 2..16, since = version returned by the previous backup; optionally preceded by a quiescent backup so that the racing one is EMPTY) runs while generations are committed from the stream.producer.start hook of selected producers, each backup is loaded into the chain's database; a last backup is taken on the quiescent source and loaded. Oracle: the loaded database shows the last generation for every tracked key. Non-trivial = generations were committed during a backup of a source with >=2 tables.",
 		func(rt *rapid.T) c25Conc {
 			c := genC25Conc(rt)
 			c.Free = false
